@@ -407,6 +407,42 @@ PROPS = {
             "natives are the fixed menu of Vm.v plus the stdlib natives; an arbitrary host function is outside the theorem",
         ],
     ),
+    "C17": dict(
+        prop_file="Properties/C17.v",
+        check_module="C17Check",
+        theorems={
+            "C17_clear_is_fresh": [],
+            "C17_run_resets_budget": [],
+            "C17_run_leaves_no_frames": [],
+            "C17_next_run_can_start": [],
+            "C17_deterministic": [],
+        },
+        n_quick=60, n_thorough=600,
+        gates=["step.clear", "step.no_clear", "history.300_steps", "outcome.ETimeout", "outcome.EStackoverflow",
+               "outcome.ECallStackOverflow", "outcome.ETaskFailure", "outcome.Ok", "prog.random"],
+        rule="histories of 4-27 (one in ten: 300) steps on ONE Vm over 1-4 compiled programs (corpus and random "
+             "modules): each step = (program, budget in {1..60, 1..400, 20000}, clear before the run with "
+             "probability 1/2, run); the host log is emptied before every step; every step is also run on a NEW Vm. "
+             "Code 1: the model (state threaded through the history, Vm.clear_state) predicts outcome, trace, "
+             "globals, log, stack heights, object count, globals length, remaining budget of the long-lived Vm. "
+             "Code 2 (observations only): a step that starts with clear (or the first step) equals the new-Vm step "
+             "in all of these; right after clear (allocated, next_gc, heights, objects, globals) equal those of a "
+             "new Vm. Non-trivial = at least two different outcome kinds or >= 10 steps; distinct = distinct case term",
+        trusted_base=COMMON_TB + [
+            "modelled, not verified: vm.rs (run, clear), vm/runtime.rs (RuntimeData::clear), the rest of Vm.v as for VM",
+            "allocator counters are read through cao_lang::verif_hooks::alloc_counters; the allocator itself is the "
+            "subject of C05 (Alloc.v), not of this model",
+        ],
+        assumptions=[
+            "PARTIAL: `run P (clear s) = run P fresh` for all histories is checked by the oracle on generated "
+            "histories, not proved: the model lacks the lemma that no instruction reads a stack slot at or above the "
+            "high-water mark of the current run",
+            "runs ending in OutOfMemory are not in the stream: the model has no allocator and the harness gives the "
+            "VM a 1 GiB limit so that no collection runs",
+            "determinism of the implementation across processes (std::HashMap iteration order in the compiler) is "
+            "not probed by this stream",
+        ],
+    ),
     "VM": dict(
         prop_file="Properties/VM.v",
         check_module="VmCheck",
